@@ -345,9 +345,11 @@ class RadiDict:
         elif mismatch:
             return
 
-        if hooks_only and node[DATA] is not None:
+        if hooks_only:
             node[HOOKS] = None
-            return
+            if node[DATA] is not None or node[IDX]:
+                # still in use as a route or as an inner node
+                return
 
         stack.reverse()
         assert node is stack[0]
